@@ -97,7 +97,7 @@ def c01(ctx):
     load_replay(ctx)
     ctx.model_selfcheck()
     W, R, NL = ctx.q((24, 4, 12), (70, 16, 120))
-    builds = build_set(ctx, ctx.q(["prod", "gcc-O2", "asan-gcc"], ["prod"] + MATRIX + ["asan-gcc", "asan-clang"]))
+    builds = build_set(ctx, ctx.q(["prod", "gcc-O2", "clang-O2", "asan-gcc"], ["prod"] + MATRIX + ["asan-gcc", "asan-clang"]))
     run_harness_on(ctx, "h_aead.c", builds, ["--mode", "rt", "--p1", W, "--p2", R, "--p3", NL], ctx.q(6, 16))
     if ctx.thorough:
         # lengths >= 2^32: a 2^32+5 byte message encrypted and decrypted in place, each key size (exact round-trip oracle)
@@ -178,7 +178,7 @@ def c08(ctx):
     load_replay(ctx)
     ctx.model_selfcheck()
     W, R, NL = ctx.q((24, 2, 12), (70, 8, 100))
-    builds = build_set(ctx, ctx.q(["prod", "gcc-O2", "asan-gcc"], ["prod"] + MATRIX + ["asan-gcc", "asan-clang"]))
+    builds = build_set(ctx, ctx.q(["prod", "gcc-O2", "clang-O2", "asan-gcc"], ["prod"] + MATRIX + ["asan-gcc", "asan-clang"]))
     run_harness_on(ctx, "h_aead.c", builds, ["--mode", "rt,siv", "--p1", W, "--p2", R, "--p3", NL], ctx.q(6, 16))
     W2, R2, NL2 = ctx.q((10, 1, 4), (28, 1, 30))
     builds2 = build_set(ctx, ctx.q(["prod", "asan-gcc"], ["prod", "clang-O3", "asan-gcc", "asan-clang"]))
@@ -358,11 +358,14 @@ def c15(ctx):
     NH, NR = ctx.q((2500, 200), (100000, 4000))
     builds = build_set(ctx, ctx.q(["prod", "asan-gcc", "msan"], ["prod", "gcc-O0", "gcc-O2", "clang-O3", "asan-gcc", "asan-clang", "msan"]))
     run_harness_on(ctx, "h_prng.c", builds, ["--mode", "model", "--p1", NH, "--p2", NR], 16, timeout=3000)
+    # 1 MiB streams at the maximum reseed limit (carry out of the low word of V + H + C + counter needs a large counter)
+    run_harness_on(ctx, "h_prng.c", builds[:1], ["--mode", "model", "--p1", 0, "--p2", 0, "--p3", ctx.q(32, 480)], 16, timeout=3000, hname="h_prng-long")
     ctx.rule = ("random histories init_user(custom) . (generate | feed | reseed | set_limit)* of length <= 12 (thorough 40) with generate sizes "
                 "{0,1,31,32,33,64,100,1000,5000}, limits {0,1,31,32,33,64,100,1024,5000,1 MiB,1 MiB+1,SIZE_MAX}, feeds of 0..299 bytes (NULL for 0), "
                 "customisation NULL/0, 5, 64..163, <64 bytes, scripted deliveries (every third history includes short and zero deliveries). A shadow "
                 "Hash_DRBG over the model hash predicts every output byte AND every entropy request (count, size, byte offset inside the call); first "
-                "divergence is reported with the op index. Relational: different initial seeds + identical feed/reseed material => different streams. "
+                "divergence is reported with the op index. Long streams: 32 (thorough 480) streams of 1 MiB at the maximum limit (reseed counter up to 32768), "
+                "every block compared with the shadow. Relational: different initial seeds + identical feed/reseed material => different streams. "
                 "class = history index (all histories distinct by construction).")
     ctx.exhaustive = False
     ctx.assumptions += PRNG_ASSUME
@@ -395,7 +398,7 @@ def c17(ctx):
     load_replay(ctx)
     ctx.model_selfcheck()
     NR = ctx.q(300, 100000)
-    builds = build_set(ctx, ctx.q(["prod", "asan-gcc"], ["prod", "gcc-O0", "gcc-O2", "clang-O3", "asan-gcc", "asan-clang"]))
+    builds = build_set(ctx, ctx.q(["prod", "asan-gcc", "msan"], ["prod", "gcc-O0", "gcc-O2", "clang-O3", "asan-gcc", "asan-clang", "msan"]))
     run_harness_on(ctx, "h_prng.c", builds, ["--mode", "faults", "--p3", NR], 16, timeout=3000, hname="h_prng-f")
     if not ctx.replay and ctx.stats.get("null_callback_child_runs", 0) < 6:
         ctx.inconclusive.append("NULL-callback child runs did not all execute")
@@ -580,13 +583,58 @@ def c20(ctx):
             if len(ctx.samples) < 12 and o in (["-O2"], ["-O2", "-flto"]):
                 ctx.samples.append({"h": "wipe-probe", "config": tag, "result": out.strip().replace("\n", "; ")})
         ctx.count("positive_control_weak_wipes_caught", ctl_seen)
+        # ---- free functions under link-time optimisation: all library sources + probe in one LTO link
+        lto = []
+        for cc, fl in (("gcc", ["-O2", "-flto"]), ("gcc", ["-O3", "-flto"]), ("clang", ["-O2", "-flto", "-fuse-ld=lld"])):
+            for cn, cd in (("explicit_bzero", cfg_bz), ("volatile-fallback", cfg_fb)):
+                lto.append((cc, fl, cn, cd))
+
+        def fprobe(c):
+            cc, fl, cn, cd = c
+            exe = os.path.join(ctx.scratch, "fp-%s%s-%s" % (cc, "".join(fl).replace("=", ""), cn))
+            pr = subprocess.run([cc] + fl + ["-DHAVE_CONFIG_H", "-I" + cd, "-I" + REPO + "/src", VERIF + "/harness/free_probe.c"] + ctx.sources() +
+                                ["-Wl,-z,now", "-o", exe], stdout=subprocess.PIPE, stderr=subprocess.PIPE)
+            if pr.returncode:
+                return c, None, pr.stderr.decode()[-600:]
+            pr = subprocess.run([exe], stdout=subprocess.PIPE, stderr=subprocess.PIPE, timeout=60)
+            return c, pr.stdout.decode(), pr.stderr.decode()[-300:]
+        with ThreadPoolExecutor(NCPU) as ex:
+            fres = list(ex.map(fprobe, lto))
+        fctl = 0
+        for (cc, fl, cn, cd), out, err in fres:
+            tag = "%s %s %s" % (cc, " ".join(fl), cn)
+            if out is None:
+                ctx.inconclusive.append("LTO free-function probe failed to build for %s: %s" % (tag, err))
+                continue
+            vals = {}
+            for l in out.splitlines():
+                m = __import__("re").match(r"(\w+) nonzero=(\d+) of (\d+)", l)
+                if m:
+                    vals[m.group(1)] = (int(m.group(2)), int(m.group(3)))
+            ctx.count("lto_free_probe_configurations", 1)
+            ctx.count("evaluations", 1)
+            ctx.add_classes([("lto-free", cc, tuple(fl), cn)])
+            for t in ("hash", "hmac", "hkdf", "prng"):
+                if t not in vals:
+                    ctx.inconclusive.append("LTO free-function probe gave no result for %s in %s" % (t, tag))
+                elif vals[t][0]:
+                    ctx.violation("free-wipe-optimised-away:%s" % t,
+                                  {"build": "lto-free-probe " + tag, "detail": "%d of %d bytes of a %s state object are non-zero after tinyjambu_%s_free() when the whole library is "
+                                   "linked with -flto and the object dies right after the call" % (vals[t][0], vals[t][1], t, t)})
+            if vals.get("control", (0, 0))[0] >= 32:
+                fctl += 1
+            if len(ctx.samples) < 12 and cc == "gcc" and fl[0] == "-O2":
+                ctx.samples.append({"h": "lto-free-probe", "config": tag, "result": out.strip().replace("\n", "; ")})
+        ctx.count("lto_positive_controls_caught", fctl)
+        if fctl < 3:
+            ctx.inconclusive.append("LTO positive control (memset wipe of a dying state) was not seen to be removed: the free-function probe is blind here")
         if ctl_seen < 8:
             ctx.inconclusive.append("positive controls (memset / plain loop wipes) were not seen to fail at >= -O1: the probe cannot see a deleted wipe here")
     ctx.rule = ("(a) 4 state types x random histories (0..8 operations incl. finalize/reinit/exhaustion/reseed, cut at a random point) then the free "
                 "function; all sizeof(public state) bytes read back; object against a guard page or between canaries; (b) tinyjambu_clean for EVERY "
                 "(offset 0..15, size 0..N) + sizes {4095,4096,4097,65535,65536,1 MiB+3}, junk arena compared byte by byte; every third case ends exactly "
                 "at a guard page; (c) wipe-survival probe: unity TU including /repo's tinyjambu-clean.c, {explicit_bzero, volatile fallback} x {gcc, clang} x "
-                "{-O0,-O1,-O2,-O3,-Os,-O2 -flto}; the dead buffer is read at its recorded address; memset/plain-loop controls must be seen to fail. "
+                "{-O0,-O1,-O2,-O3,-Os,-O2 -flto}; the dead buffer is read at its recorded address; memset/plain-loop controls must be seen to fail; (d) the four free functions with ALL library sources linked -flto ({gcc -O2, gcc -O3, clang -O2} x both configurations): a state object built on a dying stack frame is read back after its free function; a memset control must be seen to be removed. "
                 "Configurations of (a),(b): cmake production library, ASan/UBSan, and {gcc, clang} x opt levels x {explicit_bzero, fallback}. "
                 "class = (type, history index) | (offset, size) | probe configuration.")
     ctx.exhaustive = False
